@@ -1,83 +1,131 @@
-"""C11 contracts"""
-from pyvc.contract import contract
+"""C11: Reed-Solomon (12,9,4) over GF(2^8) mod x^8+x^4+x^3+x^2+1.  Functions under contract: ReedSolomon1294.log_multiply,
+xor_bytes, generate, check."""
+import itertools
+
+from pyvc.contract import contract, stub
 from spec import gf256 as F
 import okdmr.dmrlib.etsi.fec.reed_solomon_12_9_4 as rsm
 
 RS = rsm.ReedSolomon1294
 
 
-def _lsb_bits(vc, x):
-    if vc.mode == "native":
-        return [(int(x) >> i) & 1 for i in range(8)]
-    from pyvc.values import SInt
-    x = SInt.lift(x)
-    return [x.bit(i) for i in range(8)]
+def lsb_bits(vc, x):
+    return vc.bitlist(x, 8, msb_first=False)
 
 
-def _val(vc, bits):
-    if vc.mode == "native":
-        return sum(int(b) << i for i, b in enumerate(bits))
-    from pyvc.values import SInt
-    return SInt(bits).n()
-
-
-@contract("ReedSolomon1294.log_multiply", "okdmr.dmrlib.etsi.fec.reed_solomon_12_9_4:ReedSolomon1294.log_multiply", ["C11"])
+@contract("ReedSolomon1294.log_multiply", "okdmr.dmrlib.etsi.fec.reed_solomon_12_9_4:ReedSolomon1294.log_multiply", ["C11", "C19"])
 def log_multiply(vc):
-    a = vc.uint(8, "a"); b = vc.uint(8, "b")
+    """all 65 536 operand pairs at once: both operands symbolic, the log / antilog tables point-wise indexable, compared
+    with a from-scratch carry-less product reduced modulo 0x11D"""
+    a = vc.uint(8, "a")
+    b = vc.uint(8, "b")
     r = RS.log_multiply(a, b)
     if vc.mode == "native":
         vc.prove("equals_gf256_product", r == F.mul(a, b))
         return
     from pyvc.sfun import SFun
+
     want = SFun.map(F.mul, a, b)
     same = SFun.map(lambda x, y: 1 if x == y else 0, r if not isinstance(r, int) else SFun.of(r), want)
     vc.prove("equals_gf256_product", same.to_bit() if isinstance(same, SFun) else same)
 
 
-log_multiply.shapes = lambda tier: [dict()]
-
-
-def _mul_contract(a, b):
-    """what callers see of log_multiply (first operand is a literal in generate)"""
+@stub("ReedSolomon1294.log_multiply", "okdmr.dmrlib.etsi.fec.reed_solomon_12_9_4:ReedSolomon1294.log_multiply", provided_by="ReedSolomon1294.log_multiply")
+def mul_stub(a, b):
+    """what callers see: the GF(2^8) product (a GF(2)-linear map of the symbolic operand when the other is a literal)"""
     from pyvc.values import SInt
-    if isinstance(b, int):
+    from pyvc.core import Undecided
+
+    if isinstance(a, int) and isinstance(b, int):
         return F.mul(a, b)
-    assert isinstance(a, int)
+    if not isinstance(a, int):
+        a, b = b, a
+    if not isinstance(a, int):
+        raise Undecided("call[log_multiply]: both operands symbolic")
+    if not 0 <= a <= 255:
+        raise Undecided("call[log_multiply].pre: operand outside 0..255")
     b = SInt.lift(b)
+    if b.width() > 8:
+        raise Undecided("call[log_multiply].pre: operand wider than 8 bits")
     return SInt(F.mul_const_bits(a, [b.bit(i) for i in range(8)])).n()
 
 
-@contract("ReedSolomon1294.generate", "okdmr.dmrlib.etsi.fec.reed_solomon_12_9_4:ReedSolomon1294.generate", ["C11"], stubs=["ReedSolomon1294.log_multiply"])
-def generate(vc):
-    d = vc.bytes_(9, "d"); m = vc.bytes_(3, "mask")
-    if vc.mode == "symbolic":
-        real = RS.__dict__["log_multiply"]
-        RS.log_multiply = staticmethod(_mul_contract)
-        try:
-            w = RS.generate(d, m)
-        finally:
-            RS.log_multiply = real
-    else:
-        w = RS.generate(d, m)
-    vc.prove("length", len(w) == 12)
-    vc.prove("systematic", vc.eq(w[:9], d))
-    cw = [_lsb_bits(vc, w[i]) for i in range(9)] + [[x ^ y for x, y in zip(_lsb_bits(vc, w[9 + i]), _lsb_bits(vc, m[i]))] for i in range(3)]
+def syndromes(vc, octets):
+    """S_j = sum_i c_i * alpha^(j*(11-i)), j = 1..3 (alpha = 2): zero iff the word is a multiple of (x-a)(x-a^2)(x-a^3)"""
+    out = []
     for j in (1, 2, 3):
-        S = [0] * 8
-        for i, c in enumerate(cw):
+        Sj = [0] * 8
+        for i, c in enumerate(octets):
             t = F.mul_const_bits(F.power(2, j * (11 - i)), c)
-            S = [x ^ y for x, y in zip(S, t)]
-        vc.prove(f"syndrome_alpha^{j}_is_zero", vc.eq(_val(vc, S), 0))
-    vc.prove("check_accepts_generated", RS.check(w, m) if vc.mode == "native" else _check_with_stub(w, m))
+            Sj = [x ^ y for x, y in zip(Sj, t)]
+        out.append(vc.from_bits(Sj, msb_first=False))
+    return out
 
 
-def _check_with_stub(w, m):
-    real = RS.__dict__["log_multiply"]
-    RS.log_multiply = staticmethod(_mul_contract)
-    try:
-        return RS.check(w, m)
-    finally:
-        RS.log_multiply = real
+@contract("ReedSolomon1294.generate", "okdmr.dmrlib.etsi.fec.reed_solomon_12_9_4:ReedSolomon1294.generate", ["C11", "C19"], stubs=["ReedSolomon1294.log_multiply"])
+def generate(vc):
+    d = vc.bytes_(9, "d")
+    m = vc.bytes_(3, "mask")
+    w = RS.generate(d, m)
+    vc.prove("returns_12_octets", len(w) == 12)
+    vc.prove("message_followed_by_parity", vc.eq(w[:9], d))
+    cw = [lsb_bits(vc, w[i]) for i in range(9)] + [[x ^ y for x, y in zip(lsb_bits(vc, w[9 + i]), lsb_bits(vc, m[i]))] for i in range(3)]
+    S = syndromes(vc, cw)
+    for j in range(3):
+        vc.prove("syndrome_at_alpha^%d_is_zero_with_mask_removed" % (j + 1), vc.eq(S[j], 0))
+    vc.prove("check_accepts_generated_word", RS.check(w, m))
+    w0 = RS.generate(d)
+    vc.prove("default_mask_is_zero", vc.eq(w0, RS.generate(d, b"\x00\x00\x00")))
 
 
-generate.shapes = lambda tier: [dict()]
+@contract("ReedSolomon1294.check", "okdmr.dmrlib.etsi.fec.reed_solomon_12_9_4:ReedSolomon1294.check", ["C11", "C19"], stubs=["ReedSolomon1294.log_multiply"])
+def check(vc):
+    """12 free octets, free mask: accepted iff all three syndromes of (word xor (0..0 | mask)) vanish"""
+    w = vc.bytes_(12, "w")
+    m = vc.bytes_(3, "mask")
+    ok = RS.check(w, m)
+    cw = [lsb_bits(vc, w[i]) for i in range(9)] + [[x ^ y for x, y in zip(lsb_bits(vc, w[9 + i]), lsb_bits(vc, m[i]))] for i in range(3)]
+    S = syndromes(vc, cw)
+    allzero = vc.and_(*[vc.eq(s, 0) for s in S])
+    if ok:
+        vc.prove("accepted_word_has_zero_syndromes", allzero)
+    else:
+        vc.prove("rejected_word_has_a_nonzero_syndrome", vc.not_(allzero))
+
+
+@contract("ReedSolomon1294.distance_lemma", "okdmr.dmrlib.etsi.fec.reed_solomon_12_9_4:ReedSolomon1294.generate", ["C11"], stubs=["ReedSolomon1294.log_multiply"],
+          note="lemma on the GF(2)-linear parity map extracted from the real generate(): every corruption of 1..3 octets is rejected by check")
+def distance(vc):
+    if vc.mode == "native":
+        cols = []
+        for j in range(72):
+            d = bytearray(9)
+            d[j // 8] = 1 << (j % 8)
+            p = RS.generate(bytes(d))[9:]
+            cols.append(int.from_bytes(p, "little"))
+        lin = RS.generate(bytes(9)) == bytes(12)
+    else:
+        d = vc.bytes_(9, "d")
+        w = RS.generate(d, b"\x00\x00\x00")
+        ins = sum([lsb_bits(vc, d[i]) for i in range(9)], [])
+        outs = sum([lsb_bits(vc, w[9 + i]) for i in range(3)], [])
+        rows, consts = vc.linear_map(outs, ins)
+        lin = not any(consts)
+        cols = [sum(((rows[i] >> j) & 1) << i for i in range(24)) for j in range(72)]
+    vc.prove("parity_is_linear_in_the_message", lin)
+    # H = [P | I24]: column of message bit j is P's column, column of parity bit i is the unit vector e_i
+    hcols = cols + [1 << i for i in range(24)]
+    bad = None
+    for s in (1, 2, 3):
+        for pos in itertools.combinations(range(12), s):
+            basis = []
+            for o in pos:
+                for b in range(8):
+                    v = hcols[8 * o + b]
+                    for x in basis:
+                        v = min(v, v ^ x)
+                    if v == 0:
+                        bad = bad or pos
+                    else:
+                        basis.append(v)
+    vc.prove("every_1_to_3_octet_corruption_changes_the_syndrome", bad is None, note=dict(undetected_positions=bad))
